@@ -18,9 +18,12 @@ LEVEL = "other"
 # only while every alternative the meta-grammar can produce at that point has an arm of its own, in every feature
 # configuration - which is C07's ARMS rule (meta-grammar alternatives x reader arms), re-run here.
 DEPENDS = [
-    ("C07", {"only_rules": ["ARMS"],
+    ("C07", {"only_rules": ["ARMS", "LEADING"],
              "why": "a token the grammar accepts but the reader has no arm for reaches unreachable!() - a panic on a "
-                    "text that parses"}),
+                    "text that parses; an optional leading `|` that reaches the operator-precedence parser panics there"}),
+    ("C10", {"only_rules": ["COLSUB", "LINETEXT"],
+             "why": "every reported error can be rendered: also through the miette adapter, whose label arithmetic must "
+                    "not overflow on a multi-line span"}),
     ("C05", {"only_rules": ["TRAVERSE", "UNROLL"],
              "why": "the conversion to OptimizedRule ends in unreachable!() for bounded repetitions: it is unreachable only "
                     "if the unroller's traversal reaches every sub-expression (every variant, tags included) and removes them"}),
